@@ -415,6 +415,20 @@ impl fmt::Display for Ast {
 
 // ========================================================================= //
 
+/// Converts the result of a checked arithmetic operation into a `Value`,
+/// mapping overflow (like every other evaluation error) to a null value.
+fn checked_int(result: Option<i32>) -> Value {
+    match result {
+        Some(number) => Value::Int(number),
+        None => Value::Null,
+    }
+}
+
+/// Returns the shift amount as a `u32`, or `None` if it is negative.
+fn shift_amount(number: i32) -> Option<u32> {
+    u32::try_from(number).ok()
+}
+
 /// A unary operation.
 #[derive(Clone, Copy)]
 enum UnOp {
@@ -427,7 +441,7 @@ impl UnOp {
     fn eval(&self, arg: Value) -> Value {
         match *self {
             UnOp::Neg => match arg {
-                Value::Int(number) => Value::Int(-number),
+                Value::Int(number) => checked_int(number.checked_neg()),
                 _ => Value::Null,
             },
             UnOp::BitNot => match arg {
@@ -472,7 +486,7 @@ impl BinOp {
             BinOp::Ge => Value::from_bool(arg1 >= arg2),
             BinOp::Add => match (arg1, arg2) {
                 (Value::Int(num1), Value::Int(num2)) => {
-                    Value::Int(num1 + num2)
+                    checked_int(num1.checked_add(num2))
                 }
                 (Value::Str(str1), Value::Str(str2)) => {
                     Value::Str(str1 + &str2)
@@ -481,20 +495,20 @@ impl BinOp {
             },
             BinOp::Sub => match (arg1, arg2) {
                 (Value::Int(num1), Value::Int(num2)) => {
-                    Value::Int(num1 - num2)
+                    checked_int(num1.checked_sub(num2))
                 }
                 _ => Value::Null,
             },
             BinOp::Mul => match (arg1, arg2) {
                 (Value::Int(num1), Value::Int(num2)) => {
-                    Value::Int(num1 * num2)
+                    checked_int(num1.checked_mul(num2))
                 }
                 _ => Value::Null,
             },
             BinOp::Div => match (arg1, arg2) {
                 (_, Value::Int(0)) => Value::Null,
                 (Value::Int(num1), Value::Int(num2)) => {
-                    Value::Int(num1 / num2)
+                    checked_int(num1.checked_div(num2))
                 }
                 _ => Value::Null,
             },
@@ -517,15 +531,15 @@ impl BinOp {
                 _ => Value::Null,
             },
             BinOp::Shl => match (arg1, arg2) {
-                (Value::Int(num1), Value::Int(num2)) => {
-                    Value::Int(num1 << num2)
-                }
+                (Value::Int(num1), Value::Int(num2)) => checked_int(
+                    shift_amount(num2).and_then(|n| num1.checked_shl(n)),
+                ),
                 _ => Value::Null,
             },
             BinOp::Shr => match (arg1, arg2) {
-                (Value::Int(num1), Value::Int(num2)) => {
-                    Value::Int(num1 >> num2)
-                }
+                (Value::Int(num1), Value::Int(num2)) => checked_int(
+                    shift_amount(num2).and_then(|n| num1.checked_shr(n)),
+                ),
                 _ => Value::Null,
             },
         }
